@@ -47,6 +47,12 @@ def run(ctx: Ctx):
 
     # which rows / columns are "differences" (their population estimates are blanked) - decided in display positions
     c05.index_space_zip(ctx, only=("_diff_element_idxs", "diff_row_idxs", "diff_column_idxs"))
+    # "every measure defined for a subtotal equals that of the merged category": the share-of-sum of an inserted row /
+    # column / intersection is its sum over the total of the BASE cells (block rule of C15)
+    from . import c15
+
+    for _cn, _ax in (("_ColumnShareSum", 0), ("_RowShareSum", 1), ("_TotalShareSum", None)):
+        c15.grid(ctx, _cn, axis=_ax)
 
 
 def _bind(*names):
